@@ -52,6 +52,7 @@ type facts struct {
 	KnownNums      []int            `json:"known_nums"`
 	Consts         map[string]int   `json:"consts"`
 	Accessors      []factsAccessor  `json:"accessors"`
+	WrittenGlobals []string         `json:"written_globals"`
 }
 
 // factsAccessor: one accessor method of *File and the file-type values for which it answers
@@ -201,6 +202,8 @@ func collectFacts() (*facts, error) {
 		f.Accessors = append(f.Accessors, fa)
 	}
 
+	f.WrittenGlobals = repoWrittenGlobals()
+
 	c := f.Consts
 	c["mnFileId"] = int(fit.MesgNumFileId)
 	c["mnFileCreator"] = int(fit.MesgNumFileCreator)
@@ -295,6 +298,11 @@ func renderProfileLean(f *facts) string {
 	b.WriteString("]\n\n")
 	fmt.Fprintf(&b, "def profile : Profile := {\n  msgs := [%s],\n  containers := containers, fileTypes := fileTypes, accessors := accessors, profileVersion := %d }\n\n",
 		strings.Join(names, ", "), f.ProfileVersion)
+	var wgs []string
+	for _, g := range f.WrittenGlobals {
+		wgs = append(wgs, fmt.Sprintf("%q", g))
+	}
+	fmt.Fprintf(&b, "/-- package-level variables assigned on paths reachable from the decode/encode entry points -/\ndef writtenGlobals : List String := [%s]\n\n", strings.Join(wgs, ", "))
 	fmt.Fprintf(&b, "def lenFields : Nat := %d\ndef lenTypes : Nat := %d\ndef lenCtors : Nat := %d\n", f.LenFields, f.LenTypes, f.LenCtors)
 	var kn []string
 	for _, k := range f.KnownNums {
